@@ -51,7 +51,12 @@ type c14Cfg struct {
 	BadProg bool   `json:"badProg"`
 	BadAt   int    `json:"badAt"`
 	BadKind string `json:"badKind"`
+	Stop    string `json:"stop,omitempty"`  // MC_Cli: where the program exits ("pool": whatever the pool program does)
+	Alias   string `json:"alias,omitempty"` // MC_Cli: the -o path is the input file ("none": a path of its own)
 }
+
+func (k c14Cfg) inPlace() bool { return k.Alias != "" && k.Alias != "none" }
+func (k c14Cfg) stops() bool   { return k.Stop != "" && k.Stop != "pool" }
 
 func (k c14Cfg) faulty() bool { return k.BadProg || k.BadAt > 0 }
 
@@ -112,6 +117,38 @@ var c14Progs = []c14Prog{
 	// output that does not end in a newline
 	{Src: `{ printf("%s;", $.x) }`, Stateless: true},
 	{Src: "{ s += $.x; print $.x }\nEND { printf(\"sum=%s\", s) }"},
+}
+
+// c14LongProg writes more than a buffer between the program and the descriptor holds: > 8 KiB per element in the
+// quick tier (twice bufio's default size), > 64 KiB (a pipe's capacity) in the thorough tier
+func c14LongProg(thorough bool) c14Prog {
+	n := 800
+	if thorough {
+		n = 6000
+	}
+	return c14Prog{Src: `{ for (i = 0; i < ` + strconv.Itoa(n) + `; i++) print "line", i, $.x }`, Stateless: true}
+}
+
+// c14StopProgs are the programs of a shape that fixes where the run ends with `exit` (JqCli StopOf): per stop,
+// one program per kind of rule that holds the exit.  rounds = BEGINFILE activations per input file (the
+// inputs used with them hold one JSON value per file): the second file is being processed from round rounds+1 on.
+func c14StopProgs(stop string, rounds int) []c14Prog {
+	r := strconv.Itoa(rounds)
+	switch stop {
+	case "never":
+		return []c14Prog{{Src: `{ print $.x }`}, {Src: `BEGIN { print "b" } END { print "e" }`}}
+	case "begin":
+		return []c14Prog{{Src: `BEGIN { exit }`}, {Src: `BEGIN { print "b"; exit } { print $.x } END { print "e" }`}}
+	case "in1":
+		return []c14Prog{{Src: `BEGINFILE { print "bf"; exit }`}, {Src: `{ print $.x; exit }`},
+			{Src: `{ print $.x } ENDFILE { print "ef"; exit } END { print "e" }`}}
+	case "in2":
+		return []c14Prog{{Src: `BEGINFILE { nr++; if (nr > ` + r + `) { print "bf2"; exit } } { print $.x }`},
+			{Src: `BEGINFILE { nr++ } { print $.x; if (nr > ` + r + `) exit } END { print "e" }`},
+			{Src: `BEGINFILE { nr++ } { print $.x } ENDFILE { if (nr > ` + r + `) { print "ef2"; exit } }`}}
+	}
+	infra("C14: unknown stop %q", stop)
+	return nil
 }
 
 var c14Inputs = []c14Input{
@@ -266,6 +303,7 @@ func c14Exec(c *Ctx, base string, n int, r *c14Run) {
 	}()
 	k := r.Cfg
 	args := []string{}
+	outName := "out.json"
 	if k.ProgVia == "file" {
 		if k.BadProg {
 			args = append(args, "-f", "nope.jqawk")
@@ -281,8 +319,18 @@ func c14Exec(c *Ctx, base string, n int, r *c14Run) {
 	case "dash":
 		args = append(args, "-o", "-")
 	case "path":
-		args = append(args, "-o", "out.json")
-		if r.Stale {
+		in0 := ""
+		if len(r.Order) > 0 {
+			in0 = c14FileName(&r.T.I, r.Order[0])
+		}
+		switch k.Alias {
+		case "input":
+			outName = in0
+		case "spelled":
+			outName = "./" + in0 // another spelling of the same path
+		}
+		args = append(args, "-o", outName)
+		if r.Stale && !k.inPlace() {
 			os.WriteFile(filepath.Join(dir, "out.json"), c14StaleDoc, 0o644)
 		}
 	}
@@ -323,9 +371,22 @@ func c14Exec(c *Ctx, base string, n int, r *c14Run) {
 		}
 		args = append(args, name)
 	}
+	if k.Out == "path" && k.NFiles >= 1 {
+		// in place: out.json is a link to the input file
+		var err error
+		switch k.Alias {
+		case "symlink":
+			err = os.Symlink(c14FileName(&r.T.I, r.Order[0]), filepath.Join(dir, "out.json"))
+		case "hardlink":
+			err = os.Link(filepath.Join(dir, c14FileName(&r.T.I, r.Order[0])), filepath.Join(dir, "out.json"))
+		}
+		if err != nil {
+			r.Skip = "cannot link: " + err.Error()
+		}
+	}
 	r.Args = args
 	r.Res = c.RunBin(args, stdin, dir, 30*time.Second)
-	if b, err := os.ReadFile(filepath.Join(dir, "out.json")); err == nil {
+	if b, err := os.ReadFile(filepath.Join(dir, outName)); err == nil {
 		r.OutDoc = b
 		if r.OutDoc == nil {
 			r.OutDoc = []byte{}
@@ -374,7 +435,8 @@ func c14Rep(r *c14Run) map[string]any {
 func checkC14(c *Ctx) {
 	c.Assume("the exact exit code of a failure is not compared (the statement says non-zero); error messages are not compared, only stderr non-empty when the status is non-zero")
 	c.Assume("stdout is not compared when the run fails before or instead of evaluating (missing / unreadable file, -o with several inputs): the statement only fixes status and diagnostic there")
-	c.Assume("whether -o FILE exists, and what it holds, after a failed run is not compared; in half of the -o FILE runs the file exists beforehand with longer content")
+	c.Assume("whether -o FILE exists, and what it holds, after a failed run is not compared (the statement fixes the bytes written, and -o - prints none then); in half of the -o FILE runs the file exists beforehand with longer content; -o FILE naming the input file (same string, ./ spelling, symbolic link, hard link) must behave as a FILE of its own: same stdout, the document in FILE")
+	c.Assume("a program that exits before it would have read an unusable input: a missing / mode-000 file must still be refused (every input is opened before the program runs: JqCli OpensAll); stdout of such a refused run is not compared")
 	c.Assume("stdin vs named file only for programs that do not print $file; -r E vs BEGINFILE { $ = E } only for one selector and programs that do not inspect $ in BEGINFILE/ENDFILE")
 	c.Assume("file / selector order: output blocks are compared for programs whose output for (A, B) is the output for A followed by that for B (no BEGIN/END, no state carried over), on runs that succeed; selector order on inputs with one value per file")
 	c.Assume("an unreadable input is a mode-000 file (inconclusive when running as root makes it readable) and a directory given as input file; the directory opens and fails on the first read, so it counts only if the run gets as far as reading it (oracle: the library with a reader failing at that position; an exit before that ends the run successfully)")
@@ -389,7 +451,7 @@ func checkC14(c *Ctx) {
 	table := map[string]map[string]*c14Vec{}
 	c.TLC(TLCOpt{Module: "MC_Cli", Workers: 4, Heap: "2g",
 		Cfg: cfgText("SPECIFICATION Spec", "INVARIANT CliTypeOK", "INVARIANT StatusIffOk", "INVARIANT DiagIffFail", "INVARIANT StdoutShape", "INVARIANT ByteOrder",
-			"INVARIANT CallOrder", "INVARIANT OpenOrder", "INVARIANT AgreesWithResult", "INVARIANT Laws", "INVARIANT Complete", "INVARIANT Vec"),
+			"INVARIANT CallOrder", "INVARIANT OpenOrder", "INVARIANT OpensAll", "INVARIANT ReadsOriginal", "INVARIANT AgreesWithResult", "INVARIANT Laws", "INVARIANT Complete", "INVARIANT Vec"),
 		OnVec: func(raw []byte) {
 			v := &c14Vec{}
 			VecDecode(raw, v)
@@ -399,15 +461,16 @@ func checkC14(c *Ctx) {
 			}
 			table[k][v.Lib.Outcome+"/"+v.Lib.JSON] = v
 		}})
-	if len(table) != 324 {
-		infra("C14: expected 324 command-line shapes from MC_Cli, got %d", len(table))
+	if len(table) != 816 {
+		infra("C14: expected 816 command lines from MC_Cli (324 shapes; the wrapper's refusals x the stops of the program; -o naming the input), got %d", len(table))
 	}
 
 	// ---- the pool of triples
 	var triples []*c14Triple
-	for pi := range c14Progs {
+	progs := append(append([]c14Prog{}, c14Progs...), c14LongProg(c.Thorough()))
+	for pi := range progs {
 		for ii := range c14Inputs {
-			triples = append(triples, &c14Triple{P: c14Progs[pi], I: c14Inputs[ii]})
+			triples = append(triples, &c14Triple{P: progs[pi], I: c14Inputs[ii]})
 		}
 	}
 	rng.Shuffle(len(triples), func(i, j int) { triples[i], triples[j] = triples[j], triples[i] })
@@ -433,8 +496,9 @@ func checkC14(c *Ctx) {
 		nTriples = len(triples)
 	}
 	sel := triples[:nTriples]
-	bounds := map[string]any{"command_line_shapes": 324, "triples": nTriples, "triples_for_fault_shapes": nFaultTriples, "triples_for_the_r_beginfile_shapes": len(triples),
-		"programs": len(c14Progs), "input_sets": len(c14Inputs)}
+	bounds := map[string]any{"command_line_shapes": 324, "command_lines": "816: the 324 shapes; each refusal of the wrapper (unusable input, -o with several inputs) x every stop of the program (never, BEGIN, first input, second input) x 2-3 programs holding the exit in a BEGINFILE / pattern / ENDFILE rule x 2 input sets; -o naming the one input file (same string, other spelling, symbolic link, hard link)",
+		"triples": nTriples, "triples_for_fault_shapes": nFaultTriples, "triples_for_the_r_beginfile_shapes": len(triples),
+		"programs": len(progs), "input_sets": len(c14Inputs)}
 	c.Set("bounds", bounds)
 
 	// ---- plan the binary runs
@@ -449,8 +513,32 @@ func checkC14(c *Ctx) {
 	// the triples a shape is run with: a seeded selection for the product of shapes (a few for the fault shapes); EVERY
 	// triple for the shapes of the -r E / BEGINFILE { $ = E } pair, whose verdict depends on program x input
 	// (a selector that yields null, an array, a scalar; a program that counts rounds, repairs the root, ...)
+	var stopInputs []c14Input
+	for _, in := range c14Inputs {
+		if in.Name == "objects" || in.Name == "arrays" {
+			stopInputs = append(stopInputs, in)
+		}
+	}
+	stopMemo := map[string][]*c14Triple{}
+	stopTriples := func(stop string, nsel int) []*c14Triple {
+		rounds := nsel
+		if rounds == 0 {
+			rounds = 1
+		}
+		key := fmt.Sprintf("%s/%d", stop, rounds)
+		if stopMemo[key] == nil {
+			for _, p := range c14StopProgs(stop, rounds) {
+				for _, in := range stopInputs {
+					stopMemo[key] = append(stopMemo[key], &c14Triple{P: p, I: in})
+				}
+			}
+		}
+		return stopMemo[key]
+	}
 	triplesOf := func(cfg c14Cfg) []*c14Triple {
 		switch {
+		case cfg.stops():
+			return stopTriples(cfg.Stop, cfg.NSel)
 		case cfg.faulty():
 			return sel[:nFaultTriples]
 		case cfg.ProgVia == "inline" && cfg.NFiles == 1 && cfg.NSel == 1 && cfg.Out != "path":
@@ -516,7 +604,7 @@ func checkC14(c *Ctx) {
 	nOpaque := 0
 	c.TLC(TLCOpt{Module: "MC_CliBytes", Workers: 8, Heap: "4g",
 		Cfg: cfgText("SPECIFICATION Spec", fmt.Sprintf("CONSTANT MaxLen = %d", maxLen), "INVARIANT CliTypeOK", "INVARIANT StatusIffOk", "INVARIANT DiagIffFail",
-			"INVARIANT StdoutShape", "INVARIANT ByteOrder", "INVARIANT CallOrder", "INVARIANT OpenOrder", "INVARIANT Transparent", "INVARIANT AgreesWithResult",
+			"INVARIANT StdoutShape", "INVARIANT ByteOrder", "INVARIANT CallOrder", "INVARIANT OpenOrder", "INVARIANT OpensAll", "INVARIANT ReadsOriginal", "INVARIANT Transparent", "INVARIANT AgreesWithResult",
 			"INVARIANT Laws", "INVARIANT Complete", "INVARIANT Vec"),
 		OnVec: func(raw []byte) {
 			v := &struct {
@@ -688,6 +776,11 @@ func checkC14(c *Ctx) {
 				k2 := r.Cfg
 				k2.BadAt, k2.BadKind = 0, "none"
 				rows = table[c14Key(k2)]
+				if rows == nil {
+					// the row does not depend on the stop (JqCli LawStop): the shape without a refusal has only the pool's
+					k2.Stop = "pool"
+					rows = table[c14Key(k2)]
+				}
 			}
 			lib = libOf(r, at)
 			row := libRow(lib)
@@ -843,6 +936,10 @@ func checkC14(c *Ctx) {
 			if cfg.Out == "path" {
 				c2 := cfg
 				c2.Out = "dash"
+				if cfg.inPlace() {
+					c2.Alias = "none"
+					c.Count("pairs_o-in-place-dash", 1)
+				}
 				d := byKey[fmt.Sprintf("%s|%d", c14Key(c2), ti)]
 				if conclusive(r) && conclusive(d) && r.Res.Exit == 0 && d.Res.Exit == 0 {
 					c.Count("pairs_o-path-dash", 1)
